@@ -436,14 +436,18 @@ func catalogue() []entry {
 			}
 			n1 := 1 + g.Intn(maxInt(tot-1, 1))
 			u := float64(g.Range(0, n1*(tot-n1)))
-			return call{desc: fmt.Sprintf("variant %d", which), run: func(r *R) {
+			single := g.Intn(3)
+			return call{desc: fmt.Sprintf("variant %d/%d", which, single), run: func(r *R) {
 				same := func(name string, f func(buf []float64) *R) {
+					// the expected answer is computed first, on a fresh slice, before the
+					// buffer exists (a by-identity cache poisoned later would otherwise
+					// serve the same stale entry to both)
+					want := f(append([]float64(nil), b...))
 					buf := make([]float64, len(a))
 					copy(buf, a)
 					f(buf)
 					copy(buf, b)
 					got := f(buf)
-					want := f(append([]float64(nil), b...))
 					r.I(int(got.hash() >> 40))
 					if got.hash() != want.hash() {
 						r.Fail("%s called on a buffer, then again on the same buffer refilled with other values, answers differently from the same call on a fresh slice holding those values", name)
@@ -454,12 +458,21 @@ func catalogue() []entry {
 					tb := make([]int, len(t1))
 					f := func(t []int) *R {
 						d := stats.UDist{N1: n1, N2: tot - n1, T: t}
+						// one entry point per history (a by-identity memo is only hit when
+						// the call right after the refill repeats the call right before it)
+						switch single {
+						case 0:
+							return (&R{}).F(d.CDF(u))
+						case 1:
+							return (&R{}).F(d.PMF(u))
+						}
 						return (&R{}).F(d.PMF(u)).F(d.CDF(u))
 					}
+					want := f(append([]int(nil), t2...))
 					copy(tb, t1)
 					f(tb)
 					copy(tb, t2)
-					got, want := f(tb), f(append([]int(nil), t2...))
+					got := f(tb)
 					r.I(int(got.hash() >> 40))
 					if got.hash() != want.hash() {
 						r.Fail("UDist with a tie vector held in a reused buffer (refilled between two calls) answers PMF/CDF for the old ties")
@@ -476,6 +489,12 @@ func catalogue() []entry {
 				case 2:
 					same("Sample statistics", func(buf []float64) *R {
 						sm := stats.Sample{Xs: buf}
+						switch single {
+						case 0:
+							return (&R{}).F(sm.Quantile(0.3))
+						case 1:
+							return (&R{}).F(sm.IQR())
+						}
 						lo, hi := sm.Bounds()
 						return (&R{}).F(sm.Mean()).F(sm.Variance()).F(sm.Quantile(0.3)).F(sm.IQR()).F(lo).F(hi).F(stats.GeoMean(buf))
 					})
